@@ -22,6 +22,7 @@ mod c06;
 mod c07;
 mod c08;
 mod c10;
+mod c18;
 mod c19;
 mod cli;
 mod edits;
@@ -104,6 +105,7 @@ fn main() {
         "C07" => c07::run(&ctx),
         "C08" => c08::run(&ctx),
         "C10" => c10::run(&ctx),
+        "C18" => c18::run(&ctx),
         "C19" => c19::run(&ctx),
         _ => {
             eprintln!("kmon: unknown property {}", prop);
